@@ -107,6 +107,41 @@ class HeadOf(WorksFor):
 class SubOrgOf(PropertyDescriptor, TransitiveProperty): ...
 
 
+# a property hierarchy of depth 3 without inverses, and a class that has the sub-property and the grand-parent but not the middle one
+@dataclass
+class Near(PropertyDescriptor): ...
+
+
+@dataclass
+class Touches(Near):
+    pass
+
+
+@dataclass
+class Holds(Touches):
+    pass
+
+
+@dataclass(eq=False)
+class Hand(Symbol):
+    name: int = 0
+    holds: Org = None
+    near: List[Org] = field(default_factory=list)
+
+
+@dataclass(eq=False)
+class Arm(Symbol):
+    name: int = 0
+    holds: Org = None
+    touches: Org = None
+    near: List[Org] = field(default_factory=list)
+
+
+Hand.holds = Holds(Hand, "holds")
+Hand.near = Near(Hand, "near")
+Arm.holds = Holds(Arm, "holds")
+Arm.touches = Touches(Arm, "touches")
+Arm.near = Near(Arm, "near")
 Human.works_for = WorksFor(Human, "works_for")
 Human.member_of = MemberOf(Human, "member_of")
 Boss.head_of = HeadOf(Boss, "head_of")
